@@ -47,6 +47,7 @@ type target struct {
 }
 
 type world struct {
+	nAcc      int
 	a         *app.App
 	dir       string
 	L         *refctl.Identity
@@ -138,6 +139,10 @@ type result struct {
 	Ms       int64          `json:"ms"`
 }
 
+// worldExtra is the number of additional outlet accessories of the next world (storms use a large attribute database:
+// its /accessories response is far larger than net/http's buffers, so that a peer can leave while it is being written).
+var worldExtra int
+
 func newWorld(base string, seed int64) (*world, error) {
 	rnd := rand.New(rand.NewSource(seed))
 	w := &world{}
@@ -181,6 +186,10 @@ func newWorld(base string, seed int64) (*world, error) {
 	th.Thermostat.TargetHeatingCoolingState.OnValueRemoteUpdate(func(int) {})
 	note.OnValueRemoteUpdate(func(string) {})
 	accs := []*accessory.Accessory{bridge.Accessory, sw.Accessory, bulb.Accessory, th.Accessory}
+	for i := 0; i < worldExtra; i++ {
+		accs = append(accs, accessory.NewOutlet(accessory.Info{Name: fmt.Sprintf("Outlet %d", i), SerialNumber: fmt.Sprintf("o-%d", i), Manufacturer: "verif", Model: "outlet"}).Accessory)
+	}
+	w.nAcc = len(accs)
 	a, err := app.StartWith(hc.Config{StoragePath: w.dir, Pin: "00102003"}, func(t interface{}) {
 		f := reflect.ValueOf(t).Elem().FieldByName("CameraSnapshotReq")
 		fn := func(width, height uint) (*image.Image, error) {
@@ -552,8 +561,11 @@ func (w *world) checkAccessories(m *refctl.Message, prefix string) *viol {
 		return &viol{Sig: sig, What: fmt.Sprintf("GET /accessories answered %d %s", m.Status, head(m.Body, 100))}
 	}
 	db, err := refctl.ParseAttrDB(m.Body)
-	if err != nil || len(db.Accessories) != 4 {
-		return &viol{Sig: prefix + ":accessories:body", What: fmt.Sprintf("GET /accessories does not parse or lists %d accessories: %v", len(db.Accessories), err)}
+	if err != nil || db == nil {
+		return &viol{Sig: prefix + ":accessories:body", What: fmt.Sprintf("the body of GET /accessories does not parse: %v", err)}
+	}
+	if len(db.Accessories) != w.nAcc {
+		return &viol{Sig: prefix + ":accessories:body", What: fmt.Sprintf("GET /accessories lists %d accessories, %d were added", len(db.Accessories), w.nAcc)}
 	}
 	return nil
 }
